@@ -279,7 +279,7 @@ class Column:
 
     @staticmethod
     def process_array_types(_type: str, p_list: List) -> str:
-        if "<" not in _type and "ARRAY" in _type:
+        if "<" not in _type and str(p_list[-1]).startswith("ARRAY"):
             if "[" not in p_list[-1]:
                 _type = _type.replace(" ARRAY", "[]").replace("ARRAY", "[]")
             else:
